@@ -59,6 +59,37 @@ DESIGNED_NOT_REGISTERED = [
      'depending on the goal grouping); replaced by the cut-lemma form, which discharges in milliseconds'),
 ]
 
+def _guard(h):
+    """z3 occasionally ignores its own time-out inside check() (seen on mutated trees): every query of this harness gets a watchdog that
+    interrupts the z3 context after the query's total budget; the interrupted attempt counts as `unknown` (never as a verdict)"""
+    if getattr(h, '_c12_guarded', False):
+        return
+    import threading
+    inner = h.prove
+
+    def prove(name, assumes, atom, **kw):
+        budget = kw.get('cap', 60) + kw.get('vac_cap', 20) + 15
+        fired = []
+
+        def stop():
+            fired.append(1)
+            try:
+                z3.main_ctx().interrupt()
+            except Exception:
+                pass
+        timers = [threading.Timer(budget * k, stop) for k in (1, 2, 3, 4)]       # margin searches of a sat answer follow the main query
+        for t in timers:
+            t.daemon = True
+            t.start()
+        try:
+            return inner(name, assumes, atom, **kw)
+        finally:
+            for t in timers:
+                t.cancel()
+    h.prove = prove
+    h._c12_guarded = True
+
+
 def TM():
     from optimism import TensorMath
     return TensorMath
@@ -456,6 +487,7 @@ FE_NOTE = ('exp, expm1, log, log1p are uninterpreted (Ackermannised) with ground
 @obligation(P, 'O1.detpIm1', cap=120)
 def o1(h):
     """detpIm1(A) = det(A + I) - 1 and det(A) = Leibniz determinant, for all real 3x3 A (polynomial identities, 9 variables)"""
+    _guard(h)
     T = TM()
     h.encoded(T.detpIm1, T.trace, T.I2, T.det)
     h.bounds('A: all real 3x3 matrices (9 free reals)')
@@ -474,6 +506,7 @@ def o1(h):
 def o2(h):
     """inv(A) A = A inv(A) = I whenever det A != 0; sym + skw = A with sym symmetric / skw antisymmetric; dev traceless and
     A - dev(A) spherical; tensor_2D_to_3D embeds H in the upper-left block with zeros elsewhere; norm^2 = A:A"""
+    _guard(h)
     T = TM()
     h.encoded(T.inv, T.det, T.sym, T.skw, T.deviator, T.dev, T.trace, T.tensor_2D_to_3D, T.norm, T.norm_of_deviator_squared)
     h.bounds('A: all real 3x3 matrices (9 free reals), det A != 0 for inv; H: all real 2x2 matrices')
@@ -532,6 +565,7 @@ PADE_TOP = 5e-16         # p(1) - 1 = 4.7e-17 in exact arithmetic (the rounded c
 def o3(h):
     """p = cos_of_acos_divided_by_3(x): for every real x in [0,1] (the code calls it with min(|rr|,1)) the cubic
     4p^3 - 3p = x holds to 1e-14 and p is the root in [sqrt(3)/2, 1] (4p^2 >= 3, p > 0, p <= 1 + 5e-16)"""
+    _guard(h)
     T = TM()
     h.encoded(T.cos_of_acos_divided_by_3)
     h.bounds('x: all reals in [0, 1] (domain used by eigen_sym33_non_unit: arg = minimum(abs(rr), 1.0))',
@@ -570,6 +604,7 @@ POW_EXPONENTS = (0.25, 0.5, 2.0, 3.0, -1.0)
 def o4(h):
     """the relative-difference helpers are the divided differences of their scalar functions:
     rd(a,b) (a - b) = f(a) - f(b) for sqrt (exactly, all a,b >= 0 not both 0), exp (all a != b), log (all a != b > 0)"""
+    _guard(h)
     T = TM()
     h.encoded(T._sqrt_relative_difference, T._exp_relative_difference, T._log_relative_difference,
               T._relative_log_difference, T._relative_log_difference_no_tolerance_check, T._pow_relative_difference)
@@ -692,6 +727,7 @@ def o5a(h):
     """_symmetric_matrix_function_jvp_helper(func, rd, (C,), (Cdot,)) = V (H o (V^T sym(Cdot) V)) V^T with
     H_ii = func'(lam_i), H_ij = rd(lam_i, lam_j) if lam_j != lam_i else func'(lam_i), for EVERY pair (lam, V) the eigen routine
     may return (no contract needed), every Cdot (9 reals, also non-symmetric) and arbitrary values of func' and rd"""
+    _guard(h)
     T = TM()
     h.encoded(T._symmetric_matrix_function_jvp_helper, T.sym)
     h.bounds('lam: all of R^3 (any order, repeated or not); V: all real 3x3 matrices (orthogonal or not); Cdot: all real 3x3 matrices',
@@ -839,12 +875,14 @@ def _rule_obligation(h, which, m=None):
 def o5b_sqrt(h):
     """jvp rule of sqrt_symm: tangent = V (H o (V^T sym(dC) V)) V^T for every stub pair (lam, V); H (read off in the eigenframe)
     has H_ii = 1/(2 sqrt lam_i), H_ij = (sqrt lam_i - sqrt lam_j)/(lam_i - lam_j), and H_ij = H_ii when lam_i == lam_j"""
+    _guard(h)
     _rule_obligation(h, 'sqrt')
 
 
 @obligation(P, 'O5b.rule_exp', cap=300)
 def o5b_exp(h):
     """jvp rule of exp_symm: as O5b.rule_sqrt with H_ii = exp lam_i, H_ij = (exp lam_i - exp lam_j)/(lam_i - lam_j)"""
+    _guard(h)
     _rule_obligation(h, 'exp')
 
 
@@ -853,6 +891,7 @@ def o5b_pow(h):
     """jvp rule of pow_symm(A, m): as O5b.rule_sqrt with H_ii = m lam_i^(m-1), H_ij = (lam_i^m - lam_j^m)/(lam_i - lam_j), for the exponents
     m = 0.25 (Seth-Hill), 2 in the quick tier and 0.5, 3, -1 in addition in the thorough tier (real-arithmetic identity only: the accuracy
     of the relative difference near repeated eigenvalues is outside the claim)"""
+    _guard(h)
     for m in (POW_EXPONENTS if h.thorough() else (0.25, 2.0)):
         _rule_obligation(h, 'pow', m)
 
@@ -860,6 +899,7 @@ def o5b_pow(h):
 @obligation(P, 'O5b.rule_log', cap=300)
 def o5b_log(h):
     """jvp rule of log_symm: as O5b.rule_sqrt with H_ii = 1/lam_i, H_ij = (log lam_i - log lam_j)/(lam_i - lam_j)"""
+    _guard(h)
     _rule_obligation(h, 'log')
 
 
@@ -926,6 +966,7 @@ def o5c(h):
     """(S, L) = jax.jvp(sqrt_symm)(C, dC) satisfies the defining equation of the Frechet derivative of the square root,
     L S + S L = sym(dC), with the eigen routine replaced by its contract: C = V diag(lam) V^T, lam ascending and > 0 (repeated
     eigenvalues included: exercises the x1 == x2 switch), V any rotation about a coordinate axis, all symmetric dC"""
+    _guard(h)
     T = TM()
     from optimism import Math
     h.encoded(T.sqrt_symm, T._sqrt_symm_jvp, T._sqrt_relative_difference, T._symmetric_matrix_function_jvp_helper, T.symmetric_matrix_function,
@@ -951,6 +992,7 @@ def o5c(h):
 @obligation(P, 'O6.sqrt_squared', cap=300)
 def o6(h):
     """sqrt_symm(C) @ sqrt_symm(C) = C and sqrt_symm(C) symmetric, modulo the eigen contract (as in O5c), singular C included"""
+    _guard(h)
     T = TM()
     from optimism import Math
     h.encoded(T.sqrt_symm, T.symmetric_matrix_function, Math.safe_sqrt)
@@ -989,6 +1031,7 @@ def o5d(h):
     orthogonal V. Stated homogeneously for V = R(q), q in R^4 unconstrained (V^T V = |q|^4 I): L S + S L = |q|^12 dC and
     S S = |q|^4 V diag(s^2) V^T; L is homogeneous of degree 4 and S of degree 2 in V, so dividing by |q|^2 gives the claim for the
     orthogonal matrix +-R(q)/|q|^2 (L and S are even in V)"""
+    _guard(h)
     h.encoded('harness algebra over the lemma forms of O5b.rule_sqrt (optimism.TensorMath:_sqrt_symm_jvp, sqrt_symm); no new code is encoded here')
     h.bounds('q: all of R^4 (all rotations; improper orthogonal matrices by evenness in V); s: all of R^3 (no order needed); '
              'H: any symmetric 3x3 with H_ab (s_a + s_b) = 1; dC: all symmetric 3x3')
@@ -1169,6 +1212,7 @@ def _o7_meta(h):
 def o7(h):
     """the REAL eigen_sym33_unit on symbolic low-dimensional families: V diag(lam) V^T reconstructs A within 1e-9 |A|_inf, V^T V = I within
     1e-9, eigenvalues ascending. Families: s*I (all real s); in-plane pure shear g*E in the xy, xz, yz planes (all real g != 0)"""
+    _guard(h)
     _o7_meta(h)
     h.bounds('isotropic: A = s*I, every real s (both signs and 0), monolithic (no cut)',
              'pure shear: A = g*(e_i e_j^T + e_j e_i^T) for the planes xy, xz, yz, every real g > 0 and g < 0 (g = 0 is s = 0 above); '
@@ -1229,7 +1273,7 @@ def relevant_side(ctx, formulas):
     return [c for _, c in other] + keep
 
 
-def prove_coi(case, name, spec, cap=60, order=('core', 'nlsat')):
+def prove_coi(case, name, spec, cap=60, order=('core', 'nlsat'), max_unknown=None, vac_cap=20):
     """Case.prove with per-atom cone-of-influence filtering of the side conditions and the case's pruning hypotheses added"""
     assumes, atoms = spec(case.inp, case.out)
     hyps = list(getattr(case.ctx, 'hyps', []))
@@ -1243,7 +1287,13 @@ def prove_coi(case, name, spec, cap=60, order=('core', 'nlsat')):
             return ok, catoms[k], dict(outputs=[onp.asarray(l).tolist() for l in jax.tree_util.tree_leaves(co)][:6])
         goal_terms = [sym.tob(a) for a in assumes if a is not None and not isinstance(a, bool)] + hyps + [atom.neg(0)]
         base = list(assumes) + hyps + relevant_side(case.ctx, goal_terms)
-        recs.append(case.h.prove('%s.%s' % (name, atom.name), base, atom, inputs=case.inp, concrete=concrete, cap=cap, order=order))
+        recs.append(case.h.prove('%s.%s' % (name, atom.name), base, atom, inputs=case.inp, concrete=concrete, cap=cap, order=order, vac_cap=vac_cap))
+        # fail fast: these queries take milliseconds on a healthy tree; after max_unknown inconclusive ones the rest of the case is not
+        # attempted (the inconclusive records already make the run exit 3 unless a violation is reproduced elsewhere), so that a
+        # regression here cannot starve the other obligations of wall time
+        if max_unknown is not None and sum(1 for r in recs if r is not None and r.get('status') == 'inconclusive') >= max_unknown:
+            case.h.fact('%s.remaining_queries_skipped' % name, False, 'stopped after %d inconclusive queries (%d of %d atoms attempted)' % (max_unknown, k + 1, len(atoms)), nontrivial=False)
+            break
     return recs
 
 
@@ -1251,7 +1301,7 @@ E_EQUI = onp.diag([-1.0, 0.0, 1.0])
 QMIN = 1e-9
 
 
-def _o7_shifted(h, tag, E, signs, qrange='generic', cap=60):
+def _o7_shifted(h, tag, E, signs, qrange='generic', cap=20):
     """two-parameter family A = a*I + g*E (E a unit pure shear or diag(-1,0,1): |A|_inf = |a| + |g|), one case per sign pattern;
     normalised member N = sa (1-q) I + sg q E with q = |g| / (|a| + |g|)"""
     for sa, sg in signs:
@@ -1270,7 +1320,9 @@ def _o7_shifted(h, tag, E, signs, qrange='generic', cap=60):
 
         def Ns(p, E=E, sa=sa, sg=sg):
             return [[v_add(v_mul(v_sub(1.0, p[2]), sa if x == y else 0.0), v_mul(p[2], float(sg * E[x, y]))) for y in range(3)] for x in range(3)]
-        prove_coi(c, name, lambda i, o, hyp=hyp, Ns=Ns: (hyp(list(i['p'])), _eig_atoms(i, o, Nspec=Ns, per_entry=True, normalised=True)), cap=cap)
+        recs = prove_coi(c, name, lambda i, o, hyp=hyp, Ns=Ns: (hyp(list(i['p'])), _eig_atoms(i, o, Nspec=Ns, per_entry=True, normalised=True)), cap=cap, max_unknown=2, vac_cap=10)
+        if sum(1 for r in recs if r is not None and r.get('status') == 'inconclusive') >= 2:
+            break       # the remaining sign patterns of this family would go the same way
 
 
 SHIFT_BOUNDS = ('shifted families: A = a*I + g*E, a != 0, g != 0, one case per sign pattern of (a, g), q = |g|/(|a|+|g|) >= 1e-9 (q is an extra '
@@ -1282,6 +1334,7 @@ SHIFT_BOUNDS = ('shifted families: A = a*I + g*E, a != 0, g != 0, one case per s
 def o7b(h):
     """the REAL eigen_sym33_unit on the two-parameter family a*I + g*E, E the in-plane pure shear (xy; thorough: also xz, yz):
     isotropic part plus pure shear, every a != 0, g != 0 with |g| >= 1e-9 (|a| + |g|)"""
+    _guard(h)
     _o7_meta(h)
     h.bounds(SHIFT_BOUNDS, 'tolerances 1e-9 (normalised reconstruction, orthonormality)')
     h.outside('0 < q < 1e-9 (nearly isotropic: the isotropic-fallback switch c2 < c2tol is then undecided)' if not h.thorough() else
@@ -1295,6 +1348,7 @@ def o7b(h):
 def o7c(h):
     """the REAL eigen_sym33_unit on the two-parameter family a*I + g*diag(-1,0,1) (equally spaced eigenvalues: the branch rr = 0 of the
     trigonometric largest-eigenvalue formula), every a != 0, g != 0 with |g| >= 1e-9 (|a| + |g|); and g*diag(-1,0,1) alone"""
+    _guard(h)
     _o7_meta(h)
     h.bounds(SHIFT_BOUNDS, 'tolerances 1e-9 (normalised reconstruction, orthonormality)')
     _o7_shifted(h, 'aI_plus_equispaced', E_EQUI, [(1.0, 1.0), (1.0, -1.0), (-1.0, 1.0), (-1.0, -1.0)])
@@ -1309,9 +1363,10 @@ def o7c(h):
 @obligation(P, 'O7.eigen_sym33_on_families_nearly_isotropic', cap=600)
 def o7d(h):
     """as O7...shifted_shear (xy) for the nearly isotropic members 0 < q <= 1e-9, where the isotropic fallback may or may not be taken"""
+    _guard(h)
     _o7_meta(h)
     h.bounds(SHIFT_BOUNDS.replace('>= 1e-9', 'in (0, 1e-9]'))
-    _o7_shifted(h, 'aI_plus_shear_xy', E_PLANE['xy'], [(1.0, 1.0), (-1.0, -1.0)], qrange='tiny', cap=120)
+    _o7_shifted(h, 'aI_plus_shear_xy', E_PLANE['xy'], [(1.0, 1.0), (-1.0, -1.0)], qrange='tiny', cap=30)
 
 
 # ------------------------------------------------------------------------------------------------ named locals of the real source
@@ -1386,8 +1441,12 @@ class StageCase:
         def insensitive(p_):
             lam_, V_, A_ = fn(p_)
             return lam_, A_, jnp.stack([jnp.outer(V_[:, k], V_[:, k]) / (V_[:, k] @ V_[:, k]) for k in range(3)])
-        worst = jx.validate(insensitive, [ex], n=3, seed=h.seed, sampler=lambda rng: [onp.asarray(v, dtype=float) for v in sampler(rng)], rtol=1e-7)
-        h.fact('translator_validation[%s]' % label, True, 'max rel err %.2e on 3 ground runs of the symbolic path (no cut; lam, A, eigen-projectors)' % worst, nontrivial=False)
+        try:
+            worst = jx.validate(insensitive, [ex], n=3, seed=h.seed, sampler=lambda rng: [onp.asarray(v, dtype=float) for v in sampler(rng)], rtol=1e-7)
+            h.fact('translator_validation[%s]' % label, True, 'max rel err %.2e on 3 ground runs of the symbolic path (no cut; lam, A, eigen-projectors)' % worst, nontrivial=False)
+        except jx.JXError as e:
+            # exact-rational and binary64 runs can disagree at a discontinuity of the routine; recorded as a harness error, the queries still run
+            h.fact('translator_validation[%s]' % label, False, str(e)[:300], nontrivial=False)
         p = sym.sym_array('p', (npar,))
         self.inp = {'p': p}
         self.ctx = jx.Ctx()
@@ -1490,12 +1549,13 @@ def _o7_tie(h, plane, cases):
         prove_coi(c, name, spec, cap=60)
 
 
-@obligation(P, 'O7.eigen_sym33_deflation_on_pivot_ties', cap=300)
+@obligation(P, 'O7.eigen_sym33_deflation_on_pivot_ties', cap=1500)
 def o7e(h):
     """the deflation stage of the REAL eigen_sym33_non_unit (column-pivoted QR, Wilkinson shift, eigenvector assembly, sorting) on the
     three-parameter families with EQUAL in-plane diagonal [[a,g,0],[g,a,0],[0,0,c]] and its two coordinate permutations, on which two
     rows of (C - eval2 I) have exactly equal norm whatever eval2 is (pivot ties k0 == k1, k1 == k2, k0 == k2): the returned pairs
     satisfy A v_i = lam_i v_i exactly, v_i non-zero and mutually orthogonal, lam ascending"""
+    _guard(h)
     _o7_meta(h)
     h.encoded('named local eval2 of eigen_sym33_non_unit is cut (see assumptions)')
     h.bounds('a, g, c: all reals with the in-plane deviatoric eigenvalue d + g (d = (a-c)/3) strictly extreme in magnitude (positive: P, negative: N), not '
@@ -1584,6 +1644,7 @@ def o8a(h):
     stub differentiating by the perturbation contract) equals the product-rule derivative of its Daleckii-Krein form:
     V [Omega M + M Omega^T + dH o W + H o (Omega^T W + W Omega)] V^T, M = H o W, W = V^T sym(dC) V, dH_ii = f''(lam_i) dlam_i,
     dH_ij = d1 rd dlam_i + d2 rd dlam_j, for arbitrary tables of f', f'', rd, d1 rd, d2 rd (generic scalar function)"""
+    _guard(h)
     T = TM()
     h.encoded(T._symmetric_matrix_function_jvp_helper, T.sym)
     h.bounds('lam: all of R^3 with pairwise distinct entries (any order); eigenframe: V = I, C = diag(lam) (the general-V identity is the same product rule but was unknown @300 s); '
@@ -1692,6 +1753,7 @@ def o8b(h):
     differentiating S(C) S(C) = C twice along dC gives S'' S + S S'' + 2 S' S' = 0; proved in the eigenframe for all distinct positive
     spectra and all symmetric dC. A counterexample is replayed on the unmodified library: jvp(jvp(sqrt_symm)) against a 4th-order
     finite difference of jvp(sqrt_symm) at the model point"""
+    _guard(h)
     T = TM()
     from optimism import Math
     h.encoded(T.sqrt_symm, T._sqrt_symm_jvp, T._sqrt_relative_difference, T._symmetric_matrix_function_jvp_helper, T.symmetric_matrix_function,
@@ -1820,6 +1882,7 @@ def o8c_sqrt(h):
     eigen_sym33_unit, no stub) at tensors with EXACTLY repeated eigenvalues equals the second Frechet derivative
     2 sum_k f[lam_i,lam_j,lam_k] dC_ik dC_kj (second divided differences, confluent forms), for every symmetric direction dC;
     a generic (distinct) point is included as a control of the closed form"""
+    _guard(h)
     _o8c_meta(h, 'sqrt')
     _o8c(h, 'sqrt', REPEATED_POINTS)
 
@@ -1827,6 +1890,7 @@ def o8c_sqrt(h):
 @obligation(P, 'O8c.second_derivative_at_repeated_eigenvalues_log', cap=400)
 def o8c_log(h):
     """as O8c..._sqrt for log_symm (the logarithmic-strain models): quick tier control + double + uniaxial 0.2 % stretch, thorough all points"""
+    _guard(h)
     _o8c_meta(h, 'log')
     _o8c(h, 'log', REPEATED_POINTS if h.thorough() else [q for q in REPEATED_POINTS if q[0] in ('generic_control', 'double', 'uniaxial_0.2pct')])
 
@@ -1834,6 +1898,7 @@ def o8c_log(h):
 @obligation(P, 'O8c.second_derivative_at_repeated_eigenvalues_exp', tiers=('thorough',), cap=400)
 def o8c_exp(h):
     """as O8c..._sqrt for exp_symm"""
+    _guard(h)
     _o8c_meta(h, 'exp')
     _o8c(h, 'exp', REPEATED_POINTS)
 
@@ -1856,6 +1921,7 @@ def o1b(h):
     """jax.jvp and jax.grad of TensorMath.det and detpIm1 equal the derivative of the determinant polynomial, cof(A) : dA resp.
     cof(A + I) : dA, for ALL real 3x3 A and dA (9 + 9 reals, non-symmetric included).
     Pins any hand-written derivative rule of these helpers"""
+    _guard(h)
     T = TM()
     h.encoded(T.det, T.detpIm1, T.inv, T.trace, T.I2)
     h.bounds('A, dA: all real 3x3 matrices (18 free reals)')
@@ -1877,3 +1943,64 @@ def o1b(h):
                     Eq(fl(M(o[3])), fl(CI), name='grad_detpIm1_is_cofactor_of_A_plus_I')]
     c.prove('det', spec, order=('nlsat', 'core'), cap=60)
 
+
+
+# ------------------------------------------------------------------------------------------------ O6b: pow_symm with integer exponents, any sign
+def _pow_inplane_case(h, axis, m, with_jvp):
+    T = TM()
+
+    def fn(cs, lam, d6):
+        V = axis_rot(axis, cs[0], cs[1])
+        C = V @ jnp.diag(lam) @ V.T
+        with eig_stub(lam, V):
+            if with_jvp:
+                S, L = jax.jvp(lambda X: T.pow_symm(X, m), (C,), (sym6(d6),))
+            else:
+                S = T.pow_symm(C, m)
+                L = S
+        return S, L, C
+
+    def smp(rng):
+        t = rng.uniform(0, 2 * math.pi)
+        lam = onp.sort(rng.uniform(0.3, 2.0, size=3) * rng.choice([-1.0, 1.0], size=3))
+        return [onp.array([math.cos(t), math.sin(t)]), lam, rng.normal(size=6)]
+    return Case(h, fn, dict(cs=onp.array([0.6, 0.8]), lam=onp.array([-1.5, -0.5, 1.0]), d6=onp.ones(6)), sampler=smp,
+                label='pow_symm[m=%g]%s_axis%d' % (m, '_jvp' if with_jvp else '', axis), jit=False)
+
+
+@obligation(P, 'O6b.pow_symm_integer_exponents', cap=300)
+def o6b(h):
+    """pow_symm(A, m) for integer m through the real code, modulo the eigen contract, eigenvalues of ANY sign: pow_symm(A,2) = A A,
+    pow_symm(A,3) = A A A, pow_symm(A,-1) A = I (non-zero eigenvalues), pow_symm(A,0) = I; and the jvp rule for m = 2 returns dA A + A dA"""
+    _guard(h)
+    T = TM()
+    h.encoded(T.pow_symm, T._pow_symm_jvp, T._pow_relative_difference, T._symmetric_matrix_function_jvp_helper, T.symmetric_matrix_function)
+    h.bounds('A = V diag(lam) V^T, V every rotation about the z axis (quick) and x, y (thorough), lam_0 <= lam_1 <= lam_2 ALL reals (negative, zero, '
+             'positive; m = -1: non-zero), split into the four multiplicity patterns; jvp rule (m = 2): distinct eigenvalues, non-zero larger-magnitude '
+             'member of each pair (the rule divides by it), all symmetric dA')
+    h.outside('non-integer exponents with negative eigenvalues (NaN)', *NA)
+    h.assume_note(CONTRACT_NOTE)
+    I3 = eye()
+    for axis in ((2, 0, 1) if h.thorough() else (2,)):
+        for m in (2, 3, -1, 0):
+            c = _pow_inplane_case(h, axis, m, with_jvp=False)
+            for pat in PATTERNS:
+                def spec(i, o, pat=pat, m=m):
+                    cs, lam = list(i['cs']), list(i['lam'])
+                    S, C = M(o[0]), M(o[2])
+                    asm = [v_eq_replay_tol(v_add(v_sq(cs[0]), v_sq(cs[1])), 1.0), pat[1](lam[0], lam[1]), pat[2](lam[1], lam[2])]
+                    if m == -1:
+                        asm += [v_not(v_eq(x, 0.0)) for x in lam]
+                    want, got = {2: (mm(C, C), S), 3: (mm(mm(C, C), C), S), -1: (I3, mm(S, C)), 0: (I3, S)}[m]
+                    return asm, [Eq(fl(got), fl(want), name={2: 'is_A_A', 3: 'is_A_A_A', -1: 'times_A_is_I', 0: 'is_I'}[m], scale=1.0)]
+                c.prove('m=%d.axis%d.%s' % (m, axis, pat[0]), spec, order=('core', 'nlsat'), denoms=(m == -1), cap=30)
+        c = _pow_inplane_case(h, axis, 2, with_jvp=True)
+
+        def spec_d(i, o):
+            cs, lam = list(i['cs']), list(i['lam'])
+            L, C, D = M(o[1]), M(o[2]), msym6(list(i['d6']))
+            asm = [v_eq_replay_tol(v_add(v_sq(cs[0]), v_sq(cs[1])), 1.0), v_lt(lam[0], lam[1]), v_lt(lam[1], lam[2])]
+            asm += [v_not(v_eq(v_add(lam[a], lam[b]), 0.0)) for a, b in ((0, 1), (1, 2), (0, 2))] + [v_not(v_eq(x, 0.0)) for x in lam]
+            W = madd(mm(D, C), mm(C, D))
+            return asm, [Eq(L[x][y], W[x][y], name='jvp_m2_is_dA_A_plus_A_dA[%d%d]' % (x, y), scale=1.0) for x in range(3) for y in range(x, 3)]
+        c.prove('m=2.axis%d.rule' % axis, spec_d, order=('core', 'nlsat'), denoms=True, cap=30)
